@@ -4,6 +4,7 @@
 package main
 
 import (
+	"time"
 	"bufio"
 	"flag"
 	"fmt"
@@ -55,6 +56,8 @@ func main() {
 		fmt.Fprintln(os.Stderr, err)
 		os.Exit(2)
 	}
+	curRec = r
+	rec.StartWatchdog(20 * time.Second)
 	ctx := &Ctx{Seed: *seed, Thorough: *tier == "thorough", R: r, Rnd: gen.New(*seed), Corpus: *corpus, Focus: *focus}
 	if *replay != "" {
 		rp, ok := replayers[comp]
@@ -75,6 +78,10 @@ func main() {
 
 // guard runs f and reports a panic as the string "panic" (the message is not compared).
 func guard(f func() string) (res string) {
+	if curRec != nil {
+		curRec.Enter()
+		defer curRec.Leave()
+	}
 	defer func() {
 		if p := recover(); p != nil {
 			res = "panic"
@@ -82,6 +89,9 @@ func guard(f func() string) (res string) {
 	}()
 	return f()
 }
+
+// curRec is the recorder of this process (for the hang watchdog)
+var curRec *rec.Recorder
 
 func replayFile(ctx *Ctx, rp func(*Ctx, []string, []string), path string) {
 	f, err := os.Open(path)
